@@ -154,7 +154,7 @@ def enumerate_cases(tier: str, seed: int) -> list[dict[str, Any]]:
             cases.append({"key": f"sent:{name}@{mode}", "src": "sentinel", "name": name, "mode": mode, "cost": 0.5})
     for init in (False, True):
         for dp in (False, True):
-            for outcome in ("ok", "raise_trace", "raise_unsupported", "allclose"):
+            for outcome in ("ok", "raise_trace", "raise_unsupported", "raise_base_exception", "raise_system_exit", "allclose"):
                 cases.append({"key": f"flag:x64init={int(init)},dp={int(dp)},{outcome}", "src": "flag", "init": init, "dp": dp, "outcome": outcome, "cost": 0.3})
     return recs.only_filter(cases)
 
@@ -225,6 +225,18 @@ def _flag_case(case: dict[str, Any]) -> dict[str, Any]:
             try:
                 to_onnx(boom, [(3,)], enable_double_precision=dp)
             except RuntimeError as exc:
+                raised = exc
+        elif outcome in ("raise_base_exception", "raise_system_exit"):
+
+            class _Abort(BaseException):
+                pass
+
+            def abort(x):
+                raise (_Abort("the call is abandoned while tracing") if outcome == "raise_base_exception" else SystemExit(3))
+
+            try:
+                to_onnx(abort, [(3,)], enable_double_precision=dp)
+            except BaseException as exc:  # noqa: BLE001
                 raised = exc
         elif outcome == "raise_unsupported":
             from jax.extend.core import Primitive
